@@ -24,7 +24,7 @@ package kernel
 //@ -- T-CRYPTO-BYTES (ASSUMED; the only way to establish SigP): what FullVerify establishes about (hash, signature, keys, mask)
 //@ -- is a property of their byte content. h and s are seq codes; SigOK holds only for a 32-byte hash code and a 64-byte
 //@ -- signature code, so pfx = h | s | keys parses back uniquely wherever the premise holds.
-//@ axiom forall h mathint, s mathint, publics []*crypto.Key, m uint64 :: {crypto.SigOK(seq(crypto.AggKey(publics, m)), h, s)}
+//@ axiom @C09 forall h mathint, s mathint, publics []*crypto.Key, m uint64 :: {crypto.SigOK(seq(crypto.AggKey(publics, m)), h, s)}
 //@     KeysNonNil(publics) && crypto.MaskInRange(m, publics) && crypto.SigOK(seq(crypto.AggKey(publics, m)), h, s) ==> SigP(KeyPrefix(h, s, publics, len(publics)), m)
 
 //@ -- the cache key: prefix | be64(threshold) | be64(mask). CKey is the concatenation (definition) and, the last 16 bytes
@@ -33,8 +33,8 @@ package kernel
 //@ uninterp CKeyPfx(k mathint) mathint
 //@ uninterp CKeyT(k mathint) mathint
 //@ uninterp CKeyM(k mathint) mathint
-//@ axiom forall p, t, m mathint :: {CKey(p, t, m)} CKey(p, t, m) == cat(cat(p, Be64Of(t)), Be64Of(m))
-//@ axiom forall p, t, m mathint :: {CKey(p, t, m)} 0 <= t && t < 18446744073709551616 && 0 <= m && m < 18446744073709551616 ==>
+//@ axiom @C09 forall p, t, m mathint :: {CKey(p, t, m)} CKey(p, t, m) == cat(cat(p, Be64Of(t)), Be64Of(m))
+//@ axiom @C09 forall p, t, m mathint :: {CKey(p, t, m)} 0 <= t && t < 18446744073709551616 && 0 <= m && m < 18446744073709551616 ==>
 //@     CKeyPfx(CKey(p, t, m)) == p && CKeyT(CKey(p, t, m)) == t && CKeyM(CKey(p, t, m)) == m
 
 //@ spec CacheVer(node *Node) mathint = ghostint(cachever, node.cacheStore)
